@@ -303,6 +303,8 @@ def parse_arith(p, names):
             return names[tok]
         if tok == "v" and "v" in names:
             return names["v"]
+        if tok in names.get("__locals", {}):
+            return names["__locals"][tok]
         raise Untranslatable("arithmetic atom %r" % tok)
 
     def term():
@@ -330,6 +332,38 @@ def fn_body(src, header_re):
     return re.sub(r"//[^\n]*", "", src[b0 + 1:matching_brace(src, b0)]).strip()
 
 
+def ff_value(body, names):
+    """`let x = e;`* then `FiniteField::new(e)` (reduced by the constructor) or the struct
+    literal `FiniteField { v: e }` (stored as is); returns the Lean expression"""
+    body = body.strip()
+    locals_ = {}
+    while True:
+        m = re.match(r"^let\s+([a-z_][a-z0-9_]*)\s*(?::\s*u128\s*)?=\s*(.*?);\s*(.*)$", body, re.S)
+        if not m:
+            break
+        p = P(tokenize(m.group(2)))
+        locals_[m.group(1)] = "(" + parse_arith(p, dict(names, **{"__locals": locals_})) + ")"
+        if p.peek() is not None:
+            raise Untranslatable("trailing tokens in let")
+        body = m.group(3).strip()
+    nm = dict(names, **{"__locals": locals_})
+    m = re.match(r"^FiniteField::new\s*\((.*)\)$", body, re.S)
+    if m:
+        p = P(tokenize(m.group(1)))
+        e = parse_arith(p, nm)
+        if p.peek() is not None:
+            raise Untranslatable("trailing tokens")
+        return "ffNew P (%s)" % e
+    m = re.match(r"^(?:FiniteField|Self)\s*\{\s*v\s*:\s*(.*?),?\s*\}$", body, re.S)
+    if m:
+        p = P(tokenize(m.group(1)))
+        e = parse_arith(p, nm)
+        if p.peek() is not None:
+            raise Untranslatable("trailing tokens")
+        return e
+    raise Untranslatable("neither `FiniteField::new(<expr>)` nor `FiniteField { v: <expr> }`: " + body[:50])
+
+
 def translate_ff(src):
     out = {}
     # new: FiniteField { v: <expr> }
@@ -346,14 +380,7 @@ def translate_ff(src):
         ("add", r"fn add\s*\(\s*self\s*,\s*rhs\s*:\s*FiniteField<P>\s*\)\s*->\s*Self::Output\s*\{", {"self": "a", "rhs": "b"}),
         ("sub", r"fn sub\s*\(\s*self\s*,\s*rhs\s*:\s*FiniteField<P>\s*\)\s*->\s*Self::Output\s*\{", {"self": "a", "rhs": "b"}),
     ]:
-        body = fn_body(src, hdr)
-        m = re.match(r"^FiniteField::new\s*\((.*)\)$", body, re.S)
-        if not m:
-            raise Untranslatable("FiniteField::%s is not `FiniteField::new(<expr>)`" % name)
-        p = P(tokenize(m.group(1)))
-        out[name] = parse_arith(p, names)
-        if p.peek() is not None:
-            raise Untranslatable("trailing tokens in " + name)
+        out[name] = ff_value(fn_body(src, hdr), names)
     return out
 
 
@@ -361,9 +388,9 @@ def ff_section(ff):
     return f"""namespace Gen.Sem
 
 def ffNew (P v : Nat) : Nat := {ff['new']}
-def ffNegate (P a : Nat) : Nat := ffNew P ({ff['negate']})
-def ffAdd (P a b : Nat) : Nat := ffNew P ({ff['add']})
-def ffSub (P a b : Nat) : Nat := ffNew P ({ff['sub']})
+def ffNegate (P a : Nat) : Nat := {ff['negate']}
+def ffAdd (P a b : Nat) : Nat := {ff['add']}
+def ffSub (P a b : Nat) : Nat := {ff['sub']}
 
 end Gen.Sem
 """
